@@ -5,6 +5,7 @@ import SosModel.Drv.Sync
 import SosModel.Drv.Folder
 import SosModel.Drv.Auth
 import SosModel.Drv.Integrity
+import SosModel.Drv.Crypto
 open Sos
 
 /-- State threaded through a session (stateful domains add fields here). -/
@@ -16,6 +17,7 @@ def stepLine (st : DrvState) (line : String) : DrvState × String :=
   let toks := (line.trimAscii.toString.splitOn " ").filter (· ≠ "")
   match toks with
   | "merkle" :: rest => (st, Sos.Drv.Merkle.step rest)
+  | "crypto" :: rest => (st, Sos.Drv.Crypto.step rest)
   | "integrity" :: rest => (st, Sos.Drv.Integrity.step rest)
   | "auth" :: rest => (st, Sos.Drv.Auth.step rest)
   | "folder" :: rest =>
